@@ -593,7 +593,13 @@ impl<'s, const M: usize> Exec<'s, M> {
             return self.trace_push(Out::Skipped);
         }
         self.stats.hit("cap_probe");
-        let layout = Layout::from_size_align(n, 1).unwrap();
+        let layout = match Layout::from_size_align(n, 1) {
+            Ok(l) => l,
+            Err(_) => {
+                self.violate("C18", "chunk-capacity-overstated", "impossible", format!("chunk_capacity() = {}", cc));
+                return self.trace_push(Out::Ok);
+            }
+        };
         let r = self.call(|b| {
             let p = b.try_alloc_layout(layout);
             if let Ok(p) = p {
